@@ -5,11 +5,11 @@ set -u
 ID=$1; PATCH=$(readlink -f "$2"); TIER=${3:-quick}
 WT=/tmp/seedwt-$ID-$$
 git -C /repo worktree add -q --detach "$WT" HEAD || exit 3
-if ! git -C "$WT" apply "$PATCH"; then echo "PATCH DOES NOT APPLY"; git -C /repo worktree remove --force "$WT"; exit 3; fi
+if ! git -C "$WT" apply "$PATCH" 2>/dev/null && ! git -C "$WT" apply -3 "$PATCH"; then echo "PATCH DOES NOT APPLY"; git -C /repo worktree remove --force "$WT"; exit 3; fi
 cd /verif
 VERIF_REPO=$WT ./check "$ID" "$TIER" 2>&1 | cut -c1-400 | tail -12
 rc=${PIPESTATUS[0]}
 git -C /repo worktree remove --force "$WT"
-rm -f /verif/.build/*seedwt* 2>/dev/null
+rm -f /verif/.build/*seedwt_${ID}_$$* 2>/dev/null
 echo "seedtest rc=$rc"
 exit $rc
